@@ -77,7 +77,7 @@ func loadProgram(dirs []string) (*sym.Program, error) {
 		overlay[filepath.Join(repoDir, pi.dir, "zz_verif_api.go")] = sym.APISymbolic(pi.name)
 		patterns = append(patterns, "./"+pi.dir)
 	}
-	return sym.Load(sym.LoadOpts{RepoDir: repoDir, Patterns: patterns, Overlay: overlay, InitPkgs: defaultInit})
+	return sym.Load(sym.LoadOpts{RepoDir: repoDir, Patterns: patterns, Overlay: overlay, InitPkgs: defaultInit, ZeroPkgs: []string{"internal/cpu"}})
 }
 
 func main() {
@@ -106,8 +106,15 @@ func cmdRun(args []string) {
 	backend := fs.String("backend", "z3", "")
 	dbg := fs.Bool("debugpanic", false, "")
 	params := fs.String("params", "", "k=v,k=v")
+	relax := fs.Bool("relaxfdiv", false, "")
+	tmo := fs.Int("timeout", 60000, "")
 	fs.Parse(args)
 	rest := fs.Args()
+	if len(rest) >= 1 {
+		if _, ok := pkgTable[rest[0]]; !ok {
+			pkgTable[rest[0]] = pkgInfo{rest[0], rest[0], "github.com/gcash/bchutil/" + rest[0]}
+		}
+	}
 	if len(rest) < 2 {
 		fmt.Fprintln(os.Stderr, "usage: gosmt run [flags] <dir> <Harness>")
 		os.Exit(2)
@@ -130,6 +137,8 @@ func cmdRun(args []string) {
 	cfg.NoMerge = *nomerge
 	cfg.Backend = *backend
 	cfg.Params = map[string]int{}
+	cfg.RelaxFDiv = *relax
+	cfg.TimeoutMs = *tmo
 	if *dbg {
 		cfg.Params["debugpanic"] = 1
 	}
